@@ -17,6 +17,7 @@ import TracingModel.Core.NotifyDriver
 import TracingModel.Core.ReloadDriver
 import TracingModel.Core.RegRaceDriver
 import TracingModel.Core.WritersDriver
+import TracingModel.Core.JsonDriver
 
 open TM TM.Wire
 
@@ -66,6 +67,7 @@ def dispatch (prop mode : String) : Option (List String → String) :=
   | "C09", "modelfilt" => some FilteringDriver.model
   | "C09", "specfilt" => some FilteringDriver.spec
   | "C08", "model" => some DirectiveDriver.model2
+  | "C14", "model" => some JsonDriver.model
   | "C13", "model" => some WritersDriver.model
   | "C13", "spec" => some WritersDriver.spec
   | "C12", "model" => some ReloadDriver.model
